@@ -236,6 +236,65 @@ def make_key_e2e(context, profiles, k):
     return h
 
 
+def make_midi_import(n, est_key, est_voice, mode=0):
+    """load_score_midi on an in-memory MIDI file: the parts contain exactly the file's pitches (with the estimators
+    switched on or off), each at its onset with its duration; the spelling never needs more than a double accidental.
+    Pitches symbolic 21..108, realised (ps13 is a numeric kernel: the solver enumerates)."""
+
+    def h(p0: int, p1: int, p2: int, stagger: int):
+        import mido
+        import partitura.score as S
+        from engine import sym
+        from partitura.io.importmidi import load_score_midi
+
+        P = [p0, p1, p2]
+        for i in range(3):
+            require(21 <= P[i] <= 108 if i < n else P[i] == 21)
+        require(0 <= stagger <= 2)
+        P = [int(sym.realize(x)) for x in P[:n]]
+        stagger = int(sym.realize(stagger))
+        mid = mido.MidiFile(ticks_per_beat=4)
+        tr = mido.MidiTrack()
+        mid.tracks.append(tr)
+        tr.append(mido.MetaMessage("time_signature", numerator=4, denominator=4, time=0))
+        # note i sounds [i*stagger, i*stagger + 4): simultaneous (chord), overlapping or consecutive
+        events = []
+        for i, p in enumerate(P):
+            events.append((i * stagger * 2, 1, p, i))
+            events.append((i * stagger * 2 + 4, 0, p, i))
+        # a repeated pitch must end before it starts again (MIDI pairs on/off by pitch)
+        require(len(set(P)) == len(P) or stagger == 2)
+        events.sort(key=lambda e: (e[0], e[1]))
+        t = 0
+        for (tt, on, p, i) in events:
+            tr.append(mido.Message("note_on" if on else "note_off", note=p, velocity=64 if on else 0, time=tt - t, channel=0))
+            t = tt
+        sc = must_not_raise(load_score_midi, mid, part_voice_assign_mode=mode, estimate_key=est_key, estimate_voice_info=est_voice,
+                            _what="load_score_midi")
+        notes = [x for part in S.iter_parts(sc.parts) for x in part.notes_tied]
+        got = sorted((int(x.start.t), int(x.duration_tied), int(x.midi_pitch)) for x in notes)
+        exp = sorted((i * stagger * 2, 4, p) for i, p in enumerate(P))
+        check(got == exp, "the imported score does not contain exactly the file's notes", got, exp)
+        for x in notes:
+            check(-2 <= (x.alter or 0) <= 2, "more than a double accidental", x.step, x.alter, x.octave)
+            if est_voice:  # without estimation the "no voices" modes store voice 0 by design
+                check(x.voice is not None and x.voice >= 1, "estimated voice number", x.voice)
+        if est_key:
+            ks = [k for part in S.iter_parts(sc.parts) for k in part.iter_all(S.KeySignature)]
+            check(len(ks) >= 1 and all(-7 <= k.fifths <= 7 and k.mode in ("major", "minor") for k in ks), "estimated key signature",
+                  [(k.fifths, k.mode) for k in ks])
+        return [list(g) for g in got]
+
+    return h
+
+
+def _inst_midi(tier):
+    out = [{"n": 1, "est_key": True, "est_voice": True}, {"n": 1, "est_key": False, "est_voice": False, "mode": 4}]
+    if tier != "quick":
+        out += [{"n": 2, "est_key": True, "est_voice": True, "mode": 4}, {"n": 2, "est_key": False, "est_voice": True}]
+    return out
+
+
 CONTEXTS = {"cmaj": [(1.0, 60), (2.0, 64), (1.0, 67), (0.5, 65)], "amin": [(1.0, 57), (1.0, 60), (2.0, 64), (0.5, 68)],
             "top": [(1.0, 96), (1.0, 100), (1.0, 103), (0.5, 101)], "one": [(1.0, 66)]}
 
@@ -281,7 +340,7 @@ HARNESSES = [
       functions=["pitch_spelling.compute_morphetic_pitch", "pitch_spelling.p2pn", "pitch_spelling.chromatic_pitch_from_midi"],
       bounds="MIDI pitch 21..108 symbolic, morph 0..6 symbolic (any morph, not only those the estimator would choose), 1-2 notes",
       outside="compute_chroma_vector_array / compute_morph_array (choice of the morph, hence the bound |alter| <= 2 and the "
-              "order independence), load_score_midi"),
+              "order independence)"),
     H("voices", make_voices, _inst_voices, models=[], budget={"quick": 200, "thorough": 1500}, reals_only=False,
       functions=["voice_separation.estimate_voices", "prepare_notearray", "rename_voices", "VoSA.__init__", "VoSA.make_contigs",
                  "VoSA.estimate_voices", "pairwise_cost", "est_best_connections"],
@@ -294,6 +353,12 @@ HARNESSES = [
       bounds="2-3 notes, symbolic MIDI pitch 21..96, symbolic real duration in (0, 64]; transposition k concrete per instance; "
              "the distribution is observed through the similarity_func argument",
       outside="the correlation / argmax kernel (harness key_e2e and the static profile-table check), more notes"),
+    H("midi_import", make_midi_import, _inst_midi, models=[], budget={"quick": 300, "thorough": 3000}, reals_only=False,
+      functions=["importmidi.load_score_midi", "importmidi.create_part", "pitch_spelling.estimate_spelling (ps13s1)",
+                 "voice_separation.estimate_voices", "key_identification.estimate_key"],
+      bounds="in-memory MIDI file, one track, 1-2 notes of 4 ticks with symbolic pitch 21..108 (realised: 88^n inputs x 3 "
+             "staggerings: chord / overlap / consecutive), estimators on or off, listed assignment modes",
+      outside="more notes (the chroma windows of ps13 span 10+40 notes), several tracks / channels, tempo and key events"),
     H("key_e2e", _mk_key_e2e, _inst_key_e2e, models=[], budget={"quick": 200, "thorough": 900}, reals_only=False,
       functions=["key_identification.estimate_key", "ks_kid", "_similarity_with_pitch_profile", "corr", "format_key"],
       bounds="a concrete 1-4 note context per instance plus one note with symbolic pitch 21..108 and duration in {0.5, 1, 2} "
